@@ -203,12 +203,18 @@ func (t Table) weighRoute(d *RouteDef) error {
 		return errInvalidPrefix
 	}
 
+	// a weight for a service which has no target on this prefix at the
+	// moment (all its instances are down or in maintenance) has nothing
+	// to apply to. It must not fail the table: the update which removes
+	// the last instance of the service would be rejected as a whole and
+	// the old table, which still routes to that instance, would stay active.
 	if t[host] == nil || t[host].find(path) == nil {
-		return errNoMatch
+		log.Printf("[DEBUG] route: weight %v for %s %s matches no route", d.Weight, d.Service, d.Src)
+		return nil
 	}
 
 	if n := t[host].find(path).setWeight(d.Service, d.Weight, d.Tags); n == 0 {
-		return errNoMatch
+		log.Printf("[DEBUG] route: weight %v for %s %s matches no target", d.Weight, d.Service, d.Src)
 	}
 	return nil
 }
